@@ -39,6 +39,9 @@ type genOpts struct {
 	// odd macro shapes (adjacent uses, label on a use, nested macros, inner labels reused, empty bodies)
 	OddMacros bool
 	MaxCPs    int
+	// Leak: one macro that outputs with the pseudo-instruction mov is expanded both in the section the CP runs
+	// (sync) and in a section nobody runs (async) — the shape of the shared-macro-lines defect
+	Leak bool
 }
 
 const (
@@ -78,7 +81,19 @@ type secGen struct {
 	usedOut  map[int]bool
 	macros   []*macroDef
 	explicit bool // also writes i2rw/r2owa/cpy/rset/j/nop instead of the pseudo forms
+	movLit   int  // mov <reg>, <literal>: 0 = never (rset is written), 1 = only for literals < 32, 2 = any literal
 	budget   int
+}
+
+// litOp picks the mnemonic that loads literal v.
+func (g *secGen) litOp(v uint64) string {
+	if g.movLit == 0 || (g.movLit == 1 && v >= 32) {
+		return "rset"
+	}
+	if g.explicit && rapid.Bool().Draw(g.t, "rsetform") {
+		return "rset"
+	}
+	return "mov"
 }
 
 var labelWords = []string{"loop", "back", "next", "done", "skip", "L", "lbl", "_l", "Top", "exit", "again", "body", "head", "w", "x_y", "_start", "A", "zz"}
@@ -238,11 +253,8 @@ func (g *secGen) alu(atom bool) {
 		}
 		mk(op, g.dreg("ra"), g.dreg("rb"))
 	case 6, 7:
-		op := "mov"
-		if g.explicit && rapid.Bool().Draw(t, "rsetform") {
-			op = "rset"
-		}
-		mk(op, g.dreg("ra"), literal(t, drawValue(t, g.rsize, "imm"), g.rsize))
+		v := drawValue(t, g.rsize, "imm")
+		mk(g.litOp(v), g.dreg("ra"), literal(t, v, g.rsize))
 	default:
 		op := "nop"
 		if rapid.IntRange(0, 3).Draw(t, "noopform") == 0 {
@@ -305,11 +317,7 @@ func (g *secGen) jump(target string) {
 }
 
 func (g *secGen) setCounter(reg string, n uint64) {
-	op := "mov"
-	if g.explicit && rapid.Bool().Draw(g.t, "ctrform") {
-		op = "rset"
-	}
-	g.ins(op, reg, literal(g.t, n, g.rsize))
+	g.ins(g.litOp(n), reg, literal(g.t, n, g.rsize))
 }
 
 // loop: a counter-bounded loop; one backward and one forward reference.
@@ -458,8 +466,8 @@ type sectionSrc struct {
 }
 
 // genSection draws one program.
-func genSection(t *rapid.T, name string, rsize int, macros []*macroDef, o genOpts, allowIn bool) *sectionSrc {
-	g := &secGen{t: t, rsize: rsize, labels: map[string]bool{}, usedIn: map[int]bool{}, usedOut: map[int]bool{}}
+func genSection(t *rapid.T, name string, rsize int, macros []*macroDef, o genOpts, allowIn bool, movLit int, force *macroDef) *sectionSrc {
+	g := &secGen{t: t, rsize: rsize, movLit: movLit, labels: map[string]bool{}, usedIn: map[int]bool{}, usedOut: map[int]bool{}}
 	// register file: data registers first, loop counters last
 	switch rapid.IntRange(0, 3).Draw(t, "regshape") {
 	case 0:
@@ -488,7 +496,7 @@ func genSection(t *rapid.T, name string, rsize int, macros []*macroDef, o genOpt
 	case 1:
 		entryFirst = false
 	case 2:
-		entryFirst = rapid.IntRange(0, 39).Draw(t, "entryfirst") != 0
+		entryFirst = rapid.IntRange(0, 59).Draw(t, "entryfirst") != 23 // rapid favours the ends of a range
 	}
 	entry := g.site()
 	if !entryFirst {
@@ -503,18 +511,18 @@ func genSection(t *rapid.T, name string, rsize int, macros []*macroDef, o genOpt
 	// prologue: initialise the data registers
 	for r := 0; r < g.nData; r++ {
 		if rapid.IntRange(0, 3).Draw(t, "init") != 0 {
-			op := "mov"
-			if g.explicit && rapid.Bool().Draw(t, "rsetform") {
-				op = "rset"
-			}
-			g.ins(op, fmt.Sprintf("r%d", r), literal(t, drawValue(t, rsize, "init"), rsize))
+			v := drawValue(t, rsize, "init")
+			g.ins(g.litOp(v), fmt.Sprintf("r%d", r), literal(t, v, rsize))
 		}
 	}
-	forever := rapid.IntRange(0, 9).Draw(t, "forever") < 7
+	forever := rapid.IntRange(0, 9).Draw(t, "forever") < 7 || force != nil
 	var top []string
 	if forever {
 		top = g.site()
 		g.place(top)
+	}
+	if g.maxIn > 0 && rapid.IntRange(0, 3).Draw(t, "readfirst") != 0 {
+		g.input() // a program that has inputs reads one early, so that bonds between CPs carry values
 	}
 	n := rapid.IntRange(1, 3).Draw(t, "toplen")
 	streamAt := rapid.IntRange(0, n-1).Draw(t, "streamat")
@@ -528,6 +536,10 @@ func genSection(t *rapid.T, name string, rsize int, macros []*macroDef, o genOpt
 			continue
 		}
 		g.segment(0)
+	}
+	if force != nil {
+		g.alu(false)
+		g.useMacro(force)
 	}
 	if forever {
 		g.jump(g.pick(top))
@@ -644,13 +656,13 @@ func tidyMacroUses(items []srcItem, macros []*macroDef) []srcItem {
 	return out
 }
 
-func genMacros(t *rapid.T, rsize int, o genOpts) []*macroDef {
+func genMacros(t *rapid.T, rsize int, o genOpts, movLit int) []*macroDef {
 	n := rapid.IntRange(0, 3).Draw(t, "nmacros")
 	names := []string{"emit", "step", "bump", "M_1", "twice", "setup"}
 	var ms []*macroDef
 	for i := 0; i < n; i++ {
 		m := &macroDef{Name: names[(i*2+rapid.IntRange(0, 1).Draw(t, "mname"))%len(names)]}
-		g := &secGen{t: t, rsize: rsize, labels: map[string]bool{}, usedIn: map[int]bool{}, usedOut: map[int]bool{}, maxOut: 1}
+		g := &secGen{t: t, rsize: rsize, movLit: movLit, labels: map[string]bool{}, usedIn: map[int]bool{}, usedOut: map[int]bool{}, maxOut: 1}
 		g.nData = rapid.IntRange(1, 2).Draw(t, "mregs")
 		m.MaxReg = g.nData - 1
 		g.explicit = rapid.Bool().Draw(t, "mexplicit")
@@ -780,21 +792,54 @@ func genSource(o genOpts) func(t *rapid.T) Case {
 	return func(t *rapid.T) Case {
 		var c Case
 		rsize := rapid.SampledFrom([]int{8, 16, 32, 64}).Draw(t, "rsize")
-		macros := genMacros(t, rsize, o)
+		// assembler configuration and what it means for `mov <reg>, <literal>` (see asm.go and the
+		// findings in the package comment of c05_test.go)
+		c.Cfg = rapid.SampledFrom([]string{cfgNoDyn, cfgNoDyn, cfgNoDyn, cfgDefault, cfgMinWord, cfgMinSame}).Draw(t, "cfg")
+		movLit := 2
+		switch c.Cfg {
+		case cfgDefault:
+			movLit = 0
+			if rapid.IntRange(0, 19).Draw(t, "movlit_default") == 0 {
+				movLit = 2 // refused: "a criteria is needed" (counted)
+			}
+		case cfgMinWord, cfgMinSame:
+			movLit = 1
+			if rapid.IntRange(0, 9).Draw(t, "movlit_minword") == 0 {
+				movLit = 2
+			}
+		}
+		macros := genMacros(t, rsize, o, movLit)
+		var force *macroDef
+		if o.Leak {
+			g := &secGen{t: t, rsize: rsize, movLit: movLit, nData: 1, maxOut: 1, labels: map[string]bool{}, usedIn: map[int]bool{}, usedOut: map[int]bool{}}
+			g.alu(false)
+			g.emit() // explicit is false: written as mov o0, r0
+			force = &macroDef{Name: "send", Items: g.items, UsesOut: true}
+			macros = append(macros, force)
+		}
 		maxCPs := o.MaxCPs
 		if maxCPs == 0 {
 			maxCPs = 3
 		}
 		nCP := rapid.IntRange(1, maxCPs).Draw(t, "ncps")
 		nSec := rapid.IntRange(1, 3).Draw(t, "nsecs")
+		if nSec > nCP && rapid.IntRange(0, 2).Draw(t, "deadsecs") != 0 {
+			nSec = nCP // sections nobody runs are the minority (they cost assembler time and are not observed)
+		}
+		if o.Leak {
+			nSec = 2
+		}
 		globalSync := rapid.Bool().Draw(t, "globalsync")
 		secNames := []string{"code", "main", "prog_b", "S2", "worker", "romA"}
 		var secs []*sectionSrc
 		for i := 0; i < nSec; i++ {
 			name := secNames[(i*2+rapid.IntRange(0, 1).Draw(t, "sname"))%len(secNames)]
-			s := genSection(t, name, rsize, macros, o, true)
+			s := genSection(t, name, rsize, macros, o, true, movLit, force)
 			if !globalSync || rapid.Bool().Draw(t, "secsync") {
 				s.IOMode = "sync"
+			}
+			if o.Leak && i == 1 {
+				s.IOMode = "async"
 			}
 			secs = append(secs, s)
 		}
@@ -802,7 +847,10 @@ func genSource(o genOpts) func(t *rapid.T) Case {
 		var cps []cpSrc
 		usedSec := map[int]bool{}
 		for i := 0; i < nCP; i++ {
-			si := rapid.IntRange(0, nSec-1).Draw(t, "cpsec")
+			si := i % nSec // every section gets a CP first; beyond that shared or unused ones appear
+			if rapid.IntRange(0, 2).Draw(t, "cpsecfree") == 0 && !o.Leak {
+				si = rapid.IntRange(0, nSec-1).Draw(t, "cpsec")
+			}
 			usedSec[si] = true
 			var free []string
 			for _, n := range cpNames {
@@ -838,7 +886,7 @@ func genSource(o genOpts) func(t *rapid.T) Case {
 		for a := 0; a < nCP; a++ {
 			for _, op := range cps[a].Section.UsedOut {
 				linked := false
-				if a+1 < nCP && rapid.IntRange(0, 2).Draw(t, "link") != 0 {
+				if a+1 < nCP && rapid.IntRange(0, 4).Draw(t, "link") != 0 {
 					// candidate sinks in later CPs
 					type cand struct{ cp, port int }
 					var cs []cand
